@@ -17,6 +17,10 @@ a function, so that equivalent shapes translate to the same table (never keyed o
                        (tuple / list / string / number) is replaced by the literal.
   * `ifexp_assign`   — `x = a if c else b`  ->  `if c: x = a else: x = b`.
   * `match_to_if`    — `match s: case <literal|dotted name>: ...` -> if/elif on `==` (other patterns: left alone).
+  * `sink_into_branches` — tail duplication: `if c: A else: B` followed by `S` -> `if c: A; S else: B; S` for a landmark
+                       statement `S` (and the plain local assignments / logging between the `if` and `S`) — a call that
+                       was duplicated in the two branches and is hoisted behind the if/else reads like the duplicated
+                       code.
 """
 from __future__ import annotations
 
@@ -641,3 +645,70 @@ def self_writes(fn) -> set:
                 if isinstance(e, ast.Attribute) and isinstance(e.value, ast.Name) and e.value.id == "self":
                     out.add(e.attr)
     return out
+
+
+# ----------------------------------------------------------------------------------------------- tail duplication
+
+def _blocks_of(node):
+    for field in ("body", "orelse", "finalbody"):
+        blk = getattr(node, field, None)
+        if isinstance(blk, list) and blk and isinstance(blk[0], ast.stmt):
+            yield blk
+            for st in blk:
+                yield from _blocks_of(st)
+    if isinstance(node, ast.Try):
+        for h in node.handlers:
+            yield h.body
+            for st in h.body:
+                yield from _blocks_of(st)
+
+
+def _local_assignment(st) -> bool:
+    """`x = e` / `x: T = e` / `a, b = e` binding plain local names only (or a bare annotation / pass / logging)"""
+    if isinstance(st, ast.Pass) or is_logging(st):
+        return True
+    if isinstance(st, ast.AnnAssign):
+        return isinstance(st.target, ast.Name)
+    if isinstance(st, ast.Assign):
+        return all(isinstance(t, ast.Name) or (isinstance(t, (ast.Tuple, ast.List))
+                                                and all(isinstance(e, ast.Name) for e in t.elts)) for t in st.targets)
+    return False
+
+
+def sink_into_branches(fn, is_landmark):
+    """`if c: A else: B` followed (in the same block) by plain local assignments and then a landmark statement `S`
+    (`is_landmark(stmt)`), where neither branch contains a landmark  ->  `if c: A; ...; S  else: B; ...; S`.
+    Always behaviour-preserving (the continuation of an if/else is the continuation of each of its branches); applied
+    only when the branches contain no `return` / `break` / `continue` (so that what is appended is reached exactly when
+    the branch falls through) and only across statements that bind local names."""
+    def has_landmark(stmts):
+        return any(isinstance(n, ast.stmt) and is_landmark(n) for st in stmts for n in ast.walk(st))
+
+    changed = True
+    rounds = 0
+    while changed and rounds < 4:
+        changed, rounds = False, rounds + 1
+        for blk in list(_blocks_of(fn)):
+            for i, node in enumerate(blk):
+                if not (isinstance(node, ast.If) and node.orelse):
+                    continue
+                if has_landmark(node.body) or has_landmark(node.orelse):
+                    continue
+                if any(isinstance(n, (ast.Return, ast.Break, ast.Continue, ast.FunctionDef, ast.Lambda, ast.ClassDef))
+                       for n in ast.walk(node)):
+                    continue
+                j = i + 1
+                while j < len(blk) and _local_assignment(blk[j]) and not is_landmark(blk[j]):
+                    j += 1
+                if j >= len(blk) or not is_landmark(blk[j]):
+                    continue
+                moved = blk[i + 1:j + 1]
+                node.body = node.body + copy.deepcopy(moved)
+                node.orelse = node.orelse + moved
+                del blk[i + 1:j + 1]
+                changed = True
+                break
+            if changed:
+                break
+    ast.fix_missing_locations(fn)
+    return fn
